@@ -681,3 +681,85 @@ def variants(world, tier="quick", only=None):
     if only:
         out = [v for v in out if any(o in v.name for o in only)]
     return out
+
+
+class NnfNegatedQuantifierVariant(Variant):
+    """NNFizer on  not (Q V. b): _get_children asks for the negation of the body, and the callback returns the DUAL quantifier
+    over the same variables and the rewritten negated body  (not forall V. b = exists V. not b; not exists V. b = forall V. not b).
+    Also Q V. b in positive position: the same quantifier over the rewritten body."""
+    prop_ids = ("C10",)
+
+    def __init__(self, world, Kop, negated):
+        self.world, self.Kop, self.negated = world, Kop, negated
+        self.qualname = "pysmt.rewritings.NNFizer." + ("walk_not" if negated else ("walk_forall" if Kop == S.FORALL else "walk_exists"))
+        self.name = "nnf:%s%s-quantifier" % ("negated-" if negated else "", S.OPNAMES[Kop])
+
+    def setup(self, ex):
+        W = self.world
+        env = core.make_env(ex, W)
+        q = z3.Const("quantified", Node)
+        W.touch(ex, q)
+        ex.assume(S.op(q) == self.Kop)
+        W.learn(ex, q, op=self.Kop, k=1)
+        self.q = q
+        self.body = S.arg(q, S.K(0))
+        ex.assume(z3.And(S.type_of(q) == S.BoolT, S.qv_ok(q), S.nqv(q) >= 1, S.type_of(self.body) == S.BoolT))      # a well-formed quantifier
+        mgr = env.fields["_formula_manager"]
+        if self.negated:
+            f = ex.call(W.getattr(ex, mgr, "Not"), [q], {})
+        else:
+            f = q
+        self.f = f
+        self.w = Obj("pysmt.rewritings.NNFizer", {"env": env, "mgr": mgr, "memoization": DictVal(), "stack": []}, tag="nnfizer")
+        v = self
+
+        def run(exx, a_, kw_):
+            fi = W.repo.method("pysmt.rewritings.NNFizer", "_get_children")
+            kids = BI.iterate(W, exx, exx.call(W.wrap_func(fi, fi.module, bound=v.w), [f], {}))
+            v.kids = kids
+            v.a = z3.Const("nnf_of_child", Node)
+            W.touch(exx, v.a)
+            exx.assume(S.type_of(v.a) == S.BoolT)          # the rewritten child is a formula
+            # term model: a quantifier node over the same tuple of variables has the same variable count and the same
+            # 'all variables are symbols' flag (both are functions of the payload)
+            for Kq in (S.FORALL, S.EXISTS):
+                m_ = W.mk_term(Kq, [v.a], W.payload_terms(v.Kop, q))
+                exx.assume(z3.And(S.nqv(m_) == S.nqv(q), S.qv_ok(m_) == S.qv_ok(q), S.qvset(m_) == S.qvset(q)))
+            fi2 = W.repo.method("pysmt.rewritings.NNFizer", v.qualname.rsplit(".", 1)[1])
+            return exx.call(W.wrap_func(fi2, fi2.module, bound=v.w), [f], {"args": [v.a]})
+        return Builtin("children+callback:" + self.qualname, run), [], {}
+
+    def check(self, ex, outcome):
+        kind, r = outcome
+        if kind == "raise":
+            return [("no-exception", z3.BoolVal(False))]
+        if not is_node(r):
+            return [("returns-node", z3.BoolVal(False))]
+        W = self.world
+        W.touch(ex, r)
+        goals = [("one-child", z3.BoolVal(len(self.kids) == 1))]
+        if len(self.kids) == 1:
+            c = self.kids[0]
+            W.touch(ex, c)
+            if self.negated:
+                goals.append(("child-is-the-negated-body", S.val(c) == S.VBool(z3.Not(S.vb(S.val(self.body))))))
+            else:
+                goals.append(("child-is-the-body", c == self.body))
+        dual = {S.FORALL: S.EXISTS, S.EXISTS: S.FORALL}[self.Kop] if self.negated else self.Kop
+        goals.append(("%s-quantifier" % ("dual" if self.negated else "same"), S.op(r) == dual))
+        goals.append(("over-the-same-variables", S.qvset(r) == S.qvset(self.q)))
+        goals.append(("over-the-rewritten-child", S.arg(r, S.K(0)) == self.a))
+        return goals
+
+
+_base_variants10d = variants
+
+
+def variants(world, tier="quick", only=None):
+    out = _base_variants10d(world, tier, None)
+    for Kop in (S.FORALL, S.EXISTS):
+        for neg in (True, False):
+            out.append(NnfNegatedQuantifierVariant(world, Kop, neg))
+    if only:
+        out = [v for v in out if any(o in v.name for o in only)]
+    return out
